@@ -37,7 +37,7 @@ impl Deserialize for Vkeywitnesses {
                 cbor_event::Len::Len(n) => total < n,
                 cbor_event::Len::Indefinite => true,
             } {
-                if is_break_tag(raw, "Vkeywitnesses")? {
+                if is_break_tag(raw, &len, "Vkeywitnesses")? {
                     break;
                 }
                 wits.add_move(Vkeywitness::deserialize(raw)?);
